@@ -155,6 +155,11 @@ def opsDecode (t : Tables) (kind op : String) (args : List String) : Option Stri
     let bytes ← (if ctx == "tapfull" then some (encodeBytes t.keyEnv .tap (reKey (toXOnly t) ms))
                  else (parseCtx ctx).map (fun c => encodeBytes t.keyEnv c ms))
     pure (if bytes.length == n then "ok" else "bad:size-differs")
+  -- J dsize <ctx:entry> <script hex> <script_size() of the miniscript the library decoded from it>:
+  -- the predicted size is the length of the script
+  | "J", "dsize", [_ctx, hex, size] => do
+    let bs ← Hash.ofHex hex; let n ← size.toNat?
+    pure (if bs.length == n then "ok" else "bad:size-differs")
   -- J tapfull <ast over FULL keys> <library encode of Miniscript<PublicKey,Tap>> <decoded wire>
   -- specified behaviour: every key is pushed in its x-only form, so the script is the encoding
   -- of the x-only translation and decoding returns (the normal form of) that translation
